@@ -110,6 +110,57 @@ def h_similar(preset):
     return fn
 
 
+def h_filter_bookkeeping(preset):
+    """the real filter_transcripts on two novel models with one intron chain (symbolic ends, symbolic read support, symbolic
+    coverage of the component): afterwards the read lists, the counters and the model list describe the same set of models -
+    transcript_model_reads is written from the read lists, the GTF from the model list"""
+    from collections import defaultdict
+
+    def fn(g):
+        params = readfam.construction_params(preset)
+        params.simple_models_mapq_cutoff = 30
+        introns = [(1201, 1999), (2151, 2999)]
+        c = gbmc.GraphBasedModelConstructor.__new__(gbmc.GraphBasedModelConstructor)
+        c.params = params
+        c.transcript_read_ids, c.internal_counter, c.read_assignment_counts = defaultdict(list), defaultdict(int), defaultdict(int)
+        cov = g.int("component_coverage", 0, 400)
+        c.intron_graph = Obj(get_max_component_coverage=lambda path: cov, is_monointron=lambda v: False,
+                             get_overlapping_component_max_coverage=lambda rng: cov)
+        models = []
+        # model 0 has fixed ends; model 1 is placed by the solver relative to it (contained / overhanging / staggered); every model has one
+        # read of its own whose ends either support the model's ends or lie 80 bp inside them (then the real end correction moves the
+        # model's ends), and model 1 may share a read with model 0
+        offs = [(0, 0), (80, 0), (0, 80), (80, 80)]
+        for k in range(2):
+            s_ = 1050 if k == 0 else g.int("model1_start", 960, 1140)
+            e_ = 3150 if k == 0 else g.int("model1_end", 3060, 3240)
+            m = TranscriptModel("chr1", "+", "transcript%d.chr1.nnic" % (k + 1), "novel_gene_chr1_9", [(s_, 1200), (2000, 2150), (3000, e_)],
+                                TranscriptModelType.novel_not_in_catalog)
+            m.intron_path = tuple(introns)
+            models.append(m)
+            o = offs[g.choice("model%d_read_ends_inside" % k, 4)]
+            ra = Obj(read_id="m%d_r" % k, read_group="NA", mapping_quality=60, corrected_exons=[(s_ + o[0], 1200), (2000, 2150), (3000, e_ - o[1])])
+            call(g, c.save_assigned_read, ra, m.transcript_id)
+            if k == 1 and bool(g.bool("model1_shares_a_read_with_model0")):
+                sh = Obj(read_id="shared_read", read_group="NA", mapping_quality=60, corrected_exons=[(1100, 1200), (2000, 2150), (3000, 3100)])
+                call(g, c.save_assigned_read, sh, models[0].transcript_id)
+                call(g, c.save_assigned_read, sh, models[1].transcript_id)
+            c.internal_counter[m.transcript_id] = g.int("model%d_unique_reads" % k, 0, 10)
+        c.transcript_model_storage = list(models)
+        call(g, c.filter_transcripts)
+        kept = [m.transcript_id for m in c.transcript_model_storage]
+        det = {"kept": kept, "read_lists": sorted(c.transcript_read_ids.keys()), "counters": sorted(c.internal_counter.keys())}
+        g.check(sorted(c.transcript_read_ids.keys()) == sorted(kept), "read lists exist exactly for the models that are kept (transcript_model_reads references only "
+                "transcripts of the GTF, and every kept model has its read list)", detail=det)
+        for t in kept:
+            g.check(len(c.transcript_read_ids[t]) >= 1, "a kept novel model has at least one supporting read listed", detail=det)
+        for rid, n_ in c.read_assignment_counts.items():
+            listed = sum(1 for t in c.transcript_read_ids for a in c.transcript_read_ids[t] if a.read_id == rid)
+            g.check(n_ == listed, "the per-read model counter equals the number of models listing the read",
+                    detail=dict(det, read=rid, counter=str(n_), listed=listed))
+    return fn
+
+
 POOL = [(1201, 1999), (2151, 2999), (3301, 3999)]
 
 
@@ -213,6 +264,9 @@ def instances(tier, seed):
                                                                                   "src.intron_graph:IntronGraph.collapse_vertex_set"],
                             "%d reads with solver-chosen chains over near-identical intron variants" % n, weight=5000, budget_s=2400))
     for preset in (["default"] if q else ["precise", "default", "loose"]):
+        out.append(Instance("filter_bookkeeping[%s]" % preset, h_filter_bookkeeping(preset),
+                            [G + "filter_transcripts", G + "delete_from_storage", G + "detect_similar_isoforms", G + "correct_novel_transcript_ends", G + "mapping_quality"],
+                            "two novel models with one intron chain, symbolic ends / read ends / unique-read counts / component coverage", weight=800, budget_s=1500))
         out.append(Instance("similar[%s]" % preset, h_similar(preset), [G + "detect_similar_isoforms", "src.long_read_assigner:LongReadAssigner.assign_to_isoform"],
                             "two novel models with one intron chain, symbolic ends", weight=300, budget_s=1800))
     return out
